@@ -183,6 +183,27 @@ def check_raise_args(ctx):
                    'enforce raises %s, which is not one of its documented '
                    'exceptions' % cls)
     ctx.floor('C07.RAISE-ARGS', n, 2, 'gate raises')
+    # the caller's class is only ever called on the way to raising it: an
+    # allowed request, or one with do_raise off, must not depend on whether
+    # exc(*args, **kwargs) can be built
+    eager = None
+    for p in t.paths:
+        if p.outcome.kind == 'raise':
+            continue
+        for e in p.events:
+            if e.kind == 'call' and isinstance(e.node, ast.Call) and U(
+                    t.expand(e.node.func)) == 'exc' and e.frame in (
+                        None, enf.qual):
+                eager = eager or (p, e)
+    ctx.ob('C07.RAISE-ARGS', eager is None,
+           '%s:%d' % (F, eager[1].line) if eager else ctx.where(
+               enf.module, enf.node), enf.qual,
+           'construction of the caller\'s exception',
+           'only on the paths that raise it' if eager is None else
+           'exc(*args, **kwargs) is built on a path that does not raise '
+           '(%s): an allowed request, or a call with do_raise off, fails '
+           'with TypeError when the class needs arguments the caller did '
+           'not pass' % eager[0].cond_text()[-160:])
     # the gate condition itself: raise iff do_raise and not result
     bad = None
     for p in t.paths:
